@@ -120,8 +120,8 @@ def clause_c(ctx, P):
     e_is4_t = guard_edges(P, hr, lambda atom, outcome, bb: atom[0] == "binop" and atom[1] == "Eq" and fold(atom[3]) == 4 and outcome is True)
     e46 = guard_edges(P, hr, lambda atom, outcome, bb: atom[0] == "call" and name_matches(strip_generics(atom[1]), "Option::is_none") and
                       (has_call(atom, "MyIntf::next_ifaddr_v4") or has_call(atom, "MyIntf::next_ifaddr_v6")) and outcome is False)
-    both = any(has_call(x, "MyIntf::next_ifaddr_v4") for x in [tracer(P, hr).operand(t["args"][0], endpos(hr, bb)) for bb, t in hr.calls() if name_matches(cname(t), "Option::is_none")]) and \
-        any(has_call(x, "MyIntf::next_ifaddr_v6") for x in [tracer(P, hr).operand(t["args"][0], endpos(hr, bb)) for bb, t in hr.calls() if name_matches(cname(t), "Option::is_none")])
+    both = any(has_call(x, "MyIntf::next_ifaddr_v4") for x in [tracer(P, hr).operand(t["args"][0], endpos(hr, bb)) for bb, t in hr.calls() if name_matches(cname(t), "Option::is_none", "Option::is_some")]) and \
+        any(has_call(x, "MyIntf::next_ifaddr_v6") for x in [tracer(P, hr).operand(t["args"][0], endpos(hr, bb)) for bb, t in hr.calls() if name_matches(cname(t), "Option::is_none", "Option::is_some")])
     ok = (bool(e4) and bool(e6) and must_pass_edges(hr, b, e4 | e6)) or (both and bool(e46) and must_pass_edges(hr, b, e46))
     ctx.ob("C18c.disabled-family-dropped", hr.name, ok, hr.loc(b),
            "DnsIncoming::new is reachable only when the receiving interface still has an address of the packet's family")
